@@ -12,21 +12,26 @@
 //
 // Concretisation table (abstract class -> bytes), all choices seeded:
 //   tid/sid  ok: non-zero random | only low half | one bit | all ff | only high half;  zero: all '0';
-//            short: 1..n-1 hex digits; long: n+1..n+24; nonhex: n chars, 1..3 of them from kNonHex
-//            (never '-' or a hex digit); empty
+//            short: 1..n-1 hex digits; long: n+1..n+24; nonhex: n chars, 1..3 of them ANY byte that is
+//            neither a hex digit nor '-' (uniform over all 233 values); empty
 //   ver      00 | hi: a byte 01..fe | ff | v1: 1 digit | v3: 3 digits | vx: 2 chars, >=1 non-hex | v0: ""
 //   fl       hex2: the given byte | f1 | f3 | fx | f0   (as for ver)
 //   tail     none | dash "-" | dashext "-"+[0-9a-f-]{1,24} | dashweird "-"+ bytes with >=1 outside [0-9a-f-]
-//            | nodash: a printable non-hex char + up to 4 more | junk: 1..3 of NUL, DEL, bytes >= 0x80
+//            | nodash: a printable non-hex, non-'-' byte + up to 4 more | junk: 1..3 bytes that are neither
+//            white space nor hex nor '-' (uniform over all 227 values)
 //   lead/trail  ows: 1..3 of SP HT | otherws: CR LF VT FF (>=1, mixed with SP HT) | junk (lead): 1..2
-//            non-hex, non-white, non-dash bytes
-//   st       trunc3/2/1: only the first 3/2/1 fields | blank | sepbad: one '-' replaced | sepdup: one
+//            bytes, neither white space nor hex nor '-' (uniform over all 227 values)
+//   st       trunc3/2/1: only the first 3/2/1 fields | blank | sepbad: one '-' replaced by any other byte | sepdup: one
 //            '-' doubled | cut: the core cut to 1..54 bytes
 //   cs       lower | upper | mixed (>= 1 upper and 1 lower letter, forced into the trace id) |
 //            flupper (only the two flag digits upper-case)
 //   ts       none | one | three | full32: simple members key=value
 //   caller context: empty | marker only | marker + a valid local span (rotates with the instance)
+// SWEEP: a case carrying "sweep" ("full" | "rot") has exactly one bad-byte dimension; instead of n random
+// concretisations the harness enumerates EVERY byte value of that class at every position of the field
+// ("rot": at one position per byte value, rotating with the seed) - see c09_carrier.h (ByteClass).
 #include <algorithm>
+#include <array>
 
 #include "c09_carrier.h"
 #include "opentelemetry/trace/propagation/http_trace_context.h"
@@ -35,10 +40,6 @@ using namespace vh;
 namespace trace = opentelemetry::trace;
 namespace ctxns = opentelemetry::context;
 
-static const std::vector<unsigned char> kNonHex = {'g', 'G', 'x', 'z', ' ', '\t', 0x00, 0x80, 0xff, '+', '.', ':', '_',
-                                                   '@', '`', '/', '\n', 0x7f, 'O', 'l', 0xc3, '%', '='};
-static const std::vector<unsigned char> kJunk   = {0x00, 0x80, 0xff, 0x7f, 0x01, 0xa0, 0xc3, 0x85, 0x1f};
-static const std::string kPrintNonHex           = "ghxzGXZ_.:+/@~!?";
 static const std::string kHexDash               = "0123456789abcdef-";
 
 static std::string hexdigits(Rng &r, size_t n)
@@ -51,17 +52,12 @@ static std::string hexdigits(Rng &r, size_t n)
 static std::string two_with_nonhex(Rng &r)
 {
   std::string s = hexdigits(r, 2);
-  switch (r.below(3))
+  if (sweep().on || r.below(3) != 2)
+    s[bad_pos(r, 2)] = char(bad_byte(r, BC_NONHEX));
+  else
   {
-    case 0:
-      s[0] = char(r.pick(kNonHex));
-      break;
-    case 1:
-      s[1] = char(r.pick(kNonHex));
-      break;
-    default:
-      s[0] = char(r.pick(kNonHex));
-      s[1] = char(r.pick(kNonHex));
+    s[0] = char(bad_byte(r, BC_NONHEX));
+    s[1] = char(bad_byte(r, BC_NONHEX));
   }
   return s;
 }
@@ -107,9 +103,9 @@ static std::string id_field(Rng &r, const std::string &cls, size_t n, uint8_t *b
   if (cls == "nonhex")
   {
     std::string s = hexdigits(r, n);
-    uint32_t k    = 1 + r.below(3);
+    uint32_t k    = bad_count(r, 3);
     for (uint32_t i = 0; i < k; ++i)
-      s[r.below(uint32_t(n))] = char(r.pick(kNonHex));
+      s[bad_pos(r, n)] = char(bad_byte(r, BC_NONHEX));
     // make sure at least one survives (positions may coincide - they all hold non-hex bytes anyway)
     return s;
   }
@@ -138,9 +134,8 @@ static std::string ws_run(Rng &r, const std::string &cls, bool lead)
   }
   if (cls == "junk" && lead)
   {
-    static const std::string p = "xg\"_~";
-    for (uint32_t i = r.range(1, 2); i > 0; --i)
-      s += r.coin() ? char(r.pick(kJunk)) : r.pick(p);
+    for (uint32_t i = bad_count(r, 2); i > 0; --i)
+      s += char(bad_byte(r, BC_JUNK));
     return s;
   }
   fprintf(stderr, "harness: unknown white-space class %s\n", cls.c_str());
@@ -221,32 +216,23 @@ static ConcreteTP render_tp(const json &tp, Rng &r)
   else if (tail == "dashweird")
   {
     x           = "-";
-    uint32_t n  = r.range(1, 16);
-    uint32_t at = r.below(n);
+    uint32_t n  = sweep().on ? 1 + sweep().pos % 4 : r.range(1, 16);
+    uint32_t at = uint32_t(bad_pos(r, n));
     for (uint32_t i = 0; i < n; ++i)
     {
-      unsigned char ch;
-      if (i == at)
-      {
-        do
-          ch = (unsigned char)(r.next());
-        while (kHexDash.find(char(ch)) != std::string::npos);
-      }
-      else
-        ch = (unsigned char)(r.next());
-      x += char(ch);
+      x += char(i == at ? bad_byte(r, BC_WEIRD) : (unsigned char)(r.next()));
     }
   }
   else if (tail == "nodash")
   {
-    x = std::string(1, r.pick(kPrintNonHex));
+    x = std::string(1, char(bad_byte(r, BC_PRINTJUNK)));
     for (uint32_t i = r.below(5); i > 0; --i)
       x += char(r.range(0x21, 0x7e));
   }
   else if (tail == "junk")
   {
-    for (uint32_t i = r.range(1, 3); i > 0; --i)
-      x += char(r.pick(kJunk));
+    for (uint32_t i = bad_count(r, 3); i > 0; --i)
+      x += char(bad_byte(r, BC_JUNK));
   }
   else
     exit(9);
@@ -281,10 +267,9 @@ static ConcreteTP render_tp(const json &tp, Rng &r)
     core = "";
   else if (st == "sepbad")
   {
-    static const std::vector<unsigned char> rep = {':', '_', ' ', 0x00, '=', 0x80, '.', '+', '0', 'a', '\t', '~'};
-    std::string d[3]                            = {"-", "-", "-"};
-    d[r.below(3)]                               = std::string(1, char(r.pick(rep)));
-    core                                        = v + d[0] + t + d[1] + s + d[2] + f + x;
+    std::string d[3] = {"-", "-", "-"};
+    d[bad_pos(r, 3)] = std::string(1, char(bad_byte(r, BC_NOTSEP)));
+    core             = v + d[0] + t + d[1] + s + d[2] + f + x;
   }
   else if (st == "sepdup")
   {
@@ -466,50 +451,34 @@ static json run_rt(long id, int inst, const json &cs, Rng &r)
   return res;
 }
 
-static int replay(const char *path, uint64_t seed, int n)
+// the single bad-byte site of a sweep case: its byte class and the number of positions
+static bool sweep_site(const json &cs, ByteClass &cls, unsigned &npos, int &sep, std::string &name)
 {
-  auto cases = read_cases(path);
-  for (auto &cs : cases)
-  {
-    long id      = cs["id"].get<long>();
-    bool rt      = cs["k"] == "rt";
-    json out     = {{"id", id}, {"v", "ok"}, {"n", n}};
-    int valid = 0, unchanged = 0, devs = 0;
-    for (int inst = 0; inst < n; ++inst)
+  sep = '-';
+  if (cs["k"] != "x")
+    return false;
+  const json &tp = cs["car"]["tp"];
+  int sites      = 0;
+  auto site      = [&](bool is, ByteClass c, unsigned n, const char *nm) {
+    if (is)
     {
-      Rng r(mix(seed, uint64_t(id), uint64_t(inst)));
-      json res = rt ? run_rt(id, inst, cs, r) : run_x(id, inst, cs, r);
-      if (res.value("kind", "") == "valid")
-        ++valid;
-      if (res.value("kind", "") == "unchanged")
-        ++unchanged;
-      if (!res["ok"].get<bool>())
-      {
-        out["v"]    = "bad";
-        out["inst"] = inst;
-        out["res"]  = res;
-        break;
-      }
-      if (res.value("dev", false))
-      {
-        if (devs++ == 0)
-        {
-          out["v"]   = "dev";
-          out["res"] = res;
-        }
-      }
-      else if (res.contains("concrete") && !out.contains("res"))
-        out["res"] = res;
+      ++sites;
+      cls  = c;
+      npos = n;
+      name = nm;
     }
-    out["valid"]     = valid;
-    out["unchanged"] = unchanged;
-    std::cout << out.dump() << std::endl;
-  }
-  current_case().clear();
-  std::cout << "{\"done\":" << cases.size() << "}" << std::endl;
-  return 0;
+  };
+  site(tp["tid"] == "nonhex", BC_NONHEX, 32, "tid=nonhex");
+  site(tp["sid"] == "nonhex", BC_NONHEX, 16, "sid=nonhex");
+  site(tp["ver"] == "vx", BC_NONHEX, 2, "ver=vx");
+  site(tp["fl"] == "fx", BC_NONHEX, 2, "fl=fx");
+  site(tp["st"] == "sepbad", BC_NOTSEP, 3, "st=sepbad");
+  site(tp["lead"] == "junk", BC_JUNK, 1, "lead=junk");
+  site(tp["tail"] == "junk", BC_JUNK, 1, "tail=junk");
+  site(tp["tail"] == "nodash", BC_PRINTJUNK, 1, "tail=nodash");
+  site(tp["tail"] == "dashweird", BC_WEIRD, 4, "tail=dashweird");
+  return sites == 1;
 }
-
 
 // ---- code -> spec: record real executions, every byte abstracted to a token -----------------------------
 static int token_of(unsigned char c)
@@ -569,14 +538,14 @@ static std::string mutate(Rng &r, std::string h)
       case 0:
       case 1:
         if (n)
-          h[r.below(uint32_t(n))] = r.pick(kPool);
+          h[r.below(uint32_t(n))] = r.below(3) ? r.pick(kPool) : char(r.next());  // 1/3: any of the 256 byte values
         break;
       case 2:
         if (n)
           h.erase(r.below(uint32_t(n)), 1);
         break;
       case 3:
-        h.insert(r.below(uint32_t(n + 1)), 1, r.pick(kPool));
+        h.insert(r.below(uint32_t(n + 1)), 1, r.below(3) ? r.pick(kPool) : char(r.next()));
         break;
       case 4:
         if (n)
@@ -694,7 +663,7 @@ int main(int argc, char **argv)
 {
   install_death_callback();
   if (argc >= 5 && std::string(argv[1]) == "replay")
-    return replay(argv[2], strtoull(argv[3], nullptr, 10), atoi(argv[4]));
+    return replay_cases(argv[2], strtoull(argv[3], nullptr, 10), atoi(argv[4]), run_rt, run_x, sweep_site);
   if (argc >= 4 && std::string(argv[1]) == "record")
     return record(strtoull(argv[2], nullptr, 10), atol(argv[3]));
   fprintf(stderr, "usage: c09_w3c replay <cases.ndjson> <seed> <n> | record <seed> <n>\n");
